@@ -11,6 +11,7 @@ import (
 	"fmt"
 	"math/rand"
 	"net/http/httptest"
+	"runtime"
 	"runtime/debug"
 	"sort"
 	"strings"
@@ -494,6 +495,86 @@ func lookups(rng *rand.Rand, round int) {
 	}
 }
 
+// ---------------------------------------------------------------- (b2) the same new set arrives from several sides at once
+
+// stampede: a rotation is noticed at the same moment by the periodic updater and by lookups for gossiped VAAs that
+// already name the new set. For every new index k, six goroutines released together hand the same batch [set k] to
+// the append path and two ask for set k on demand (fetching it from the chain stub). Afterwards the list must still
+// be indexed by set index: Get(i) is set i for every i <= k and the current set is set k.
+func stampede(rng *rand.Rand, round int) {
+	const M = 60
+	sets := make([][]int, M+1)
+	for i := range sets {
+		sets[i] = []int{1 + i%90, 100 + i%90, 200 + (i % 50)}
+	}
+	ch := newChain(sets, 0)
+	defer ch.close()
+	ctx, cancel := context.WithCancel(context.Background())
+	defer cancel()
+	gsC := make(chan *common.GuardianSet, 1)
+	drainC(ctx, gsC)
+	gs := guardiansets.NewGuardianSets([]*common.GuardianSet{gsOf(sets[0], 0)}, ch.srv.URL, zap.NewNop(), time.Hour, ch.addr, gsC)
+	for k := 1; k <= M; k++ {
+		ch.setCurrent(k)
+		var ready, goFlag int32 // spin barrier: the eight start within nanoseconds of each other
+		var wg sync.WaitGroup
+		for g := 0; g < 8; g++ {
+			wg.Add(1)
+			go func(g int) {
+				defer wg.Done()
+				defer func() {
+					if p := recover(); p != nil {
+						r.Violation("lookup:panic-during-concurrent-append:stampede", map[string]interface{}{"panic": fmt.Sprint(p), "index": k})
+					}
+				}()
+				atomic.AddInt32(&ready, 1)
+				for atomic.LoadInt32(&goFlag) == 0 {
+				}
+				if g < 6 {
+					from := k - (g % 2) // the updater's batch sometimes starts one set earlier (overlap)
+					var batch []*common.GuardianSet
+					for i := from; i <= k; i++ {
+						if i >= 1 {
+							batch = append(batch, gsOf(sets[i], i))
+						}
+					}
+					_ = gs.VerifUpdateGuardianSets(batch)
+				} else {
+					_, _ = gs.GetGuardianSet(ctx, k)
+				}
+			}(g)
+		}
+		for atomic.LoadInt32(&ready) < 8 {
+			runtime.Gosched()
+		}
+		atomic.StoreInt32(&goFlag, 1)
+		wg.Wait()
+		r.Count("stampede_rotations", 1)
+		cur := gs.GetCurrentGuardianSet()
+		if int(cur.Index) != k || !sameKeys(cur.Keys, sets[k]) {
+			r.Violation("lookup:current-set-has-wrong-keys", map[string]interface{}{"expected_index": k, "returned_index": cur.Index, "after": "simultaneous appends of the same new set"})
+			return
+		}
+		lo := k - 2
+		if k%10 == 0 || k == M || lo < 0 {
+			lo = 0
+		}
+		for i := lo; i <= k; i++ {
+			s, err := gs.GetGuardianSet(ctx, i)
+			r.Count("lookup_ops", 1)
+			if err != nil || s == nil || int(s.Index) != i || !sameKeys(s.Keys, sets[i]) {
+				w := map[string]interface{}{"asked": i, "newest_index": k, "error": fmt.Sprint(err), "after": "simultaneous appends of the same new set"}
+				if s != nil {
+					w["returned_index"] = s.Index
+				}
+				r.Violation("lookup:set-returned-for-index-i-is-not-set-i", w)
+				return
+			}
+		}
+	}
+	r.Distinct("histories", fmt.Sprintf("stampede/%d", round))
+}
+
 // ---------------------------------------------------------------- (c) hand-off failure is not remembered
 
 func handoff(rng *rand.Rand) {
@@ -674,6 +755,9 @@ func main() {
 	for round := 0; round < r.Pick(40, 1500); round++ {
 		lookups(rng, round)
 	}
+	for round := 0; round < r.Pick(12, 300); round++ {
+		stampede(rng, round)
+	}
 	for i := 0; i < r.Pick(20, 300); i++ {
 		handoff(rng)
 	}
@@ -689,5 +773,5 @@ func main() {
 	}
 	r.Assume("the core contract is a JSON-RPC stub answering eth_call for getCurrentGuardianSetIndex/getGuardianSet like the contract (zero value for unknown indices)",
 		"the explorer is built against the node module version its go.mod pins (as the real binary is)")
-	r.Finish("evaluations", "gate_cases", "(a) VAAs naming an old, the current, a not-yet-known and a nonexistent set, signed by q-1/q/all members of the named or of another set, with wrong / unordered / repeated signatures, for set sizes 1..19: whatever reaches the queue must verify against the set it names; (b) 8 goroutines doing Get(i)/Current()/Append over 24 sets, results checked against ground truth, histories checked with porcupine, -race; (c) push on a full queue, then invalid copies of the same message (under-signed, wrong signer, repeated signature, nonexistent set), then the retry; (d) a handed-over VAA whose dedupe entry (40 ms expiration via the deduplicator's own option) has lapsed, then invalid copies of the same body; distinct non-trivial = distinct gate case shapes", 20)
+	r.Finish("evaluations", "gate_cases", "(a) VAAs naming an old, the current, a not-yet-known and a nonexistent set, signed by q-1/q/all members of the named or of another set, with wrong / unordered / repeated signatures, for set sizes 1..19: whatever reaches the queue must verify against the set it names; (b) 8 goroutines doing Get(i)/Current()/Append over 24 sets, results checked against ground truth, histories checked with porcupine, -race; (b2) for each of 60 rotations eight goroutines released together append the same new set (six through the updater's append path, two through on-demand lookups), then every index must still answer with its own set; (c) push on a full queue, then invalid copies of the same message (under-signed, wrong signer, repeated signature, nonexistent set), then the retry; (d) a handed-over VAA whose dedupe entry (40 ms expiration via the deduplicator's own option) has lapsed, then invalid copies of the same body; distinct non-trivial = distinct gate case shapes", 20)
 }
